@@ -15,7 +15,7 @@ Open Scope nat_scope.
 Section P.
 Variable p : prog.
 Hypothesis wfp : wf_prog p.
-Hypothesis pure : pure_effects p.
+Hypothesis nsf : no_self_feed p.
 
 (* ---------------------------------------------------------------- C02: idle *)
 (* the last run of effect e is consistent with the present: its log shows current values, the
@@ -69,7 +69,7 @@ Theorem idle_converged_all : forall ops e,
   EffectConverged s e.
 Proof.
   intros ops e Hw s Hr Hh He Ha Hm. apply idle_converged; auto.
-  destruct (reachable_at_rest p wfp pure ops Hw) as [H|H]; [unfold s in Hh; congruence|auto].
+  destruct (reachable_at_rest p wfp nsf ops Hw) as [H|H]; [unfold s in Hh; congruence|auto].
 Qed.
 
 (* ---------------------------------------------------------------- C09: what the ghost means *)
@@ -95,6 +95,23 @@ Lemma nocause_counts fr i s :
 Proof. unfold begin_run. destruct fr; [reflexivity|]. destruct (since (getn s i)); reflexivity. Qed.
 
 End P.
+
+(* ---------------------------------------------------------------- outside the known class *)
+(* the same statements for every program that is not in the class of finding F-C02-d *)
+Theorem idle_converged_except_known : forall p, wf_prog p -> ~ self_feeding p ->
+  forall ops e, wf_ops p ops -> let s := run_fixed p ops in
+  ready s = [] -> halted s = false -> effb p e = true ->
+  ealive (getn s e) = true -> emissed (getn s e) = false ->
+  EffectConverged p s e.
+Proof. intros p W H. apply idle_converged_all; auto. apply not_self_feeding; auto. Qed.
+
+Theorem no_causeless_run_except_known : forall p, wf_prog p -> ~ self_feeding p ->
+  forall ops, wf_ops p ops -> nocause (run_fixed p ops) = 0.
+Proof. intros p W H. apply no_causeless_run; auto. apply not_self_feeding; auto. Qed.
+
+Theorem reachable_inv_except_known : forall p, wf_prog p -> ~ self_feeding p ->
+  forall ops, wf_ops p ops -> Inv0 p (run_fixed p ops).
+Proof. intros p W H. apply reachable_inv; auto. apply not_self_feeding; auto. Qed.
 
 (* ---------------------------------------------------------------- witnesses on the pre-fix variants *)
 Open Scope Z_scope.
@@ -139,7 +156,7 @@ Example resume_fixed :
   ready s = [] /\ last_log s 1%nat = [(0%nat, 3, true)].
 Proof. vm_compute. auto. Qed.
 
-(* F-C02-d (open): a self-feeding effect; it is outside [pure_effects], and the model shows the
+(* F-C02-d (open): a self-feeding effect; it is in the class [self_feeding], and the model shows the
    stale entry the real code shows *)
 Definition p_self : prog :=
   [DSig false 1; DMemo CNe (Rd 0%nat); DMemo CNe (Rd 1%nat);
@@ -167,3 +184,47 @@ Proof.
     unfold decl_of. rewrite nth_overflow by (cbn; lia). discriminate.
   - repeat constructor.
 Qed.
+
+(* p_self is in the known class: its effect writes signal 0, which memo 1 (read by the effect) reads *)
+Example p_self_is_self_feeding : self_feeding p_self.
+Proof.
+  exists 3%nat, EEffect, (Add (Rd 1%nat) (Add (Ite (Lt (Rd 1%nat) (Const 5)) (Wr 0%nat (Const 5)) (Const 0)) (Rd 2%nat))),
+         (Const 0), 0%nat.
+  split; [reflexivity|]. split.
+  - left. cbn. tauto.
+  - apply (dep_step p_self 3%nat 1%nat 0%nat).
+    + unfold dep1; cbn. tauto.
+    + apply dep_one. unfold dep1; cbn. reflexivity.
+Qed.
+
+(* effects that write, outside the known class: a relay.  Effect 2 copies a + 1 into b, effect 3
+   reads b through a memo; after a write to a and a run to idle the last run of effect 3 shows
+   the current value of the memo *)
+Definition p_relay : prog :=
+  [DSig false 1; DSig true 0; DEff EEffect (Wr 1%nat (Add (Rd 0%nat) (Const 1))) (Const 0);
+   DMemo CNe (Add (Rd 1%nat) (Rd 1%nat)); DEff EEffect (Rd 3%nat) (Const 0)].
+Definition ops_relay : list op := [ORun; OWrite 0%nat 5; ORun].
+
+Example p_relay_wf : wf_prog p_relay /\ ~ self_feeding p_relay /\ wf_ops p_relay ops_relay.
+Proof.
+  split; [|split].
+  - intros i Hi. do 5 (destruct i as [|i]; [cbn; repeat split; auto; lia|]). cbn in Hi. lia.
+  - intros (i & k & b & h & x & Hd & Hw & Hdep).
+    destruct i as [|[|[|[|[|i]]]]]; cbn in Hd; try discriminate.
+    + (* effect 2 writes 1 and depends only on 0 *)
+      inversion Hd; subst; cbn in Hw.
+      assert (x = 1%nat) by (destruct Hw as [[?|[[]|[]]]|[]]; auto). subst x.
+      inversion Hdep as [? ? H1|? y ? H1 H2]; subst.
+      * unfold dep1 in H1; cbn in H1. destruct H1 as [[?|[]]|[]]; discriminate.
+      * unfold dep1 in H1; cbn in H1. assert (y = 0%nat) by (destruct H1 as [[?|[]]|[]]; auto). subst y.
+        inversion H2 as [? ? H3|? ? ? H3 _]; unfold dep1 in H3; cbn in H3; contradiction.
+    + inversion Hd; subst; cbn in Hw. destruct Hw as [[]|[]].
+    + destruct i; discriminate.
+  - repeat constructor.
+Qed.
+Example relay_converges :
+  let s := run_fixed p_relay ops_relay in
+  ready s = [] /\ halted s = false /\ sval (getn s 1%nat) = 6 /\
+  last_log s 4%nat = [(3%nat, 12, true)] /\ last_log s 2%nat = [(0%nat, 5, true)].
+Proof. vm_compute. auto. Qed.
+
